@@ -10,6 +10,7 @@ import (
 	"regexp"
 	"go/token"
 	"os"
+	"path/filepath"
 	"sort"
 	"strings"
 )
@@ -386,6 +387,110 @@ func precedenceUses(path string, funcs []string, defName string) {
 	fmt.Printf("def %s : List String := [%s]\n", defName, strings.Join(q, ", "))
 }
 
+// every place the code enumerates a dictionary / map, or could otherwise be non-deterministic:
+// calls of dict.Keys/Values/KVs, range statements over anything but an obvious slice/string/int,
+// go statements, and uses of time / math/rand / os.Environ / %p.
+func enumSites(repo string) {
+	type site struct{ file, fn, what string }
+	var sites []site
+	var files []string
+	for _, pat := range []string{"fc/*.go", "pkg/*/*.go", "cmd/*/*.go"} {
+		ms, _ := filepath.Glob(filepath.Join(repo, pat))
+		files = append(files, ms...)
+	}
+	sort.Strings(files)
+	for _, path := range files {
+		if strings.HasSuffix(path, "_test.go") {
+			continue
+		}
+		fset, f := parseFile(path)
+		rel, _ := filepath.Rel(repo, path)
+		for _, imp := range f.Imports {
+			switch strings.Trim(imp.Path.Value, "\"") {
+			case "time", "math/rand", "math/rand/v2", "crypto/rand", "sync", "unsafe":
+				sites = append(sites, site{rel, "-", "import " + imp.Path.Value})
+			}
+		}
+		for _, d := range f.Decls {
+			fd, ok := d.(*ast.FuncDecl)
+			if !ok || fd.Body == nil {
+				continue
+			}
+			show := func(n ast.Node) string {
+				var sb strings.Builder
+				printer.Fprint(&sb, fset, n)
+				return strings.Join(strings.Fields(sb.String()), " ")
+			}
+			ast.Inspect(fd.Body, func(n ast.Node) bool {
+				switch x := n.(type) {
+				case *ast.CallExpr:
+					if se, ok := x.Fun.(*ast.SelectorExpr); ok {
+						if id, ok := se.X.(*ast.Ident); ok {
+							full := id.Name + "." + se.Sel.Name
+							switch full {
+							case "dict.Keys", "dict.Values", "dict.KVs":
+								sites = append(sites, site{rel, fd.Name.Name, full})
+							case "os.Environ", "os.Getenv", "os.Getpid", "time.Now":
+								sites = append(sites, site{rel, fd.Name.Name, full})
+							}
+						}
+					}
+					for _, a := range x.Args {
+						if bl, ok := a.(*ast.BasicLit); ok && strings.Contains(bl.Value, "%p") {
+							sites = append(sites, site{rel, fd.Name.Name, "format %p"})
+						}
+					}
+				case *ast.GoStmt:
+					sites = append(sites, site{rel, fd.Name.Name, "go statement"})
+				case *ast.SelectStmt:
+					sites = append(sites, site{rel, fd.Name.Name, "select statement"})
+				case *ast.RangeStmt:
+					sites = append(sites, site{rel, fd.Name.Name, "range " + show(x.X)})
+				}
+				return true
+			})
+		}
+	}
+	fmt.Println("/-- enumeration / non-determinism sites: (file, function, what) -/")
+	fmt.Println("def enumSites : List (String × String × String) := [")
+	for i, x := range sites {
+		sep := ","
+		if i == len(sites)-1 {
+			sep = ""
+		}
+		fmt.Printf("  (%s, %s, %s)%s\n", leanStr(x.file), leanStr(x.fn), leanStr(x.what), sep)
+	}
+	fmt.Println("]")
+}
+
+// the package-qualified calls (pkg.Func) made inside one function, in source order
+func callsIn(path, fn, defName string) {
+	_, f := parseFile(path)
+	var calls []string
+	for _, d := range f.Decls {
+		fd, ok := d.(*ast.FuncDecl)
+		if !ok || fd.Name.Name != fn || fd.Body == nil {
+			continue
+		}
+		ast.Inspect(fd.Body, func(n ast.Node) bool {
+			if ce, ok := n.(*ast.CallExpr); ok {
+				if se, ok := ce.Fun.(*ast.SelectorExpr); ok {
+					if id, ok := se.X.(*ast.Ident); ok {
+						calls = append(calls, id.Name+"."+se.Sel.Name)
+					}
+				}
+			}
+			return true
+		})
+	}
+	q := make([]string, len(calls))
+	for i, c := range calls {
+		q[i] = leanStr(c)
+	}
+	fmt.Printf("/-- package-qualified calls inside %s of %s, in source order -/\n", fn, path)
+	fmt.Printf("def %s : List String := [%s]\n", defName, strings.Join(q, ", "))
+}
+
 var identRe = regexp.MustCompile(`[A-Za-z_][A-Za-z0-9_]*`)
 
 func main() {
@@ -407,6 +512,11 @@ func main() {
 		fmt.Println("namespace Folang.Generated")
 		binOpTable(repo + "/fc/wrapper.go")
 		precedenceUses(repo+"/fc/gen_parser.go", []string{"parseBinAfter", "parseExprWithPrec", "parseExpr"}, "precedenceUses")
+		fmt.Println("end Folang.Generated")
+	case "enum":
+		fmt.Println("namespace Folang.Generated")
+		enumSites(repo)
+		callsIn(repo+"/fc/gen_parse_state.go", "scLookupRecFacCur", "lookupRecFacCalls")
 		fmt.Println("end Folang.Generated")
 	case "lib":
 		fmt.Println("namespace Folang.Generated")
